@@ -612,6 +612,9 @@ def r_snap(E):
                 f"{norm(n.targets[0])} is assigned {norm(n.value)[:60]}, not the system's {want}", T.rel, n.lineno,
                 "ModelingUpdate.__init__"))
     rel, ai = pm.find_function("core/system.py", "System.after_init")
+    from ..astutil import inlined_view as _iv2
+    # steps split out of after_init (those that take the initial totals) read as its own statements
+    ai = _iv2(ai, pm.helper_finder("System"), only=lambda x: isinstance(x, ast.Assign) and "initial_total_" in norm(x.targets[0]))
     comp = None
     for s in ai.body:
         for c in _calls(s):
@@ -1078,6 +1081,9 @@ def r_edge(E):
                     f"objects that can no longer be deleted)", rel, n.lineno, q))
     # the ancestor list built at construction takes both parents
     rel, ini = pm.find_function(EB, "ExplainableObject.__init__")
+    from ..astutil import inlined_view as _iv
+    ini = _iv(ini, pm.helper_finder("ExplainableObject"), only=lambda x: isinstance(x, ast.Attribute)
+              and x.attr == "return_direct_ancestors_with_id_to_child")
     res.instances += 1
     def parents_in(e):
         return {x.attr if isinstance(x, ast.Attribute) else x.id for x in ast.walk(e)
@@ -1186,7 +1192,9 @@ def r_guard(E):
     res.instances += 1
     raises = [n for n in ast.walk(ck) if isinstance(n, ast.Raise)]
     raising_ifs = [s for s in ast.walk(ck) if isinstance(s, ast.If) and any(isinstance(x, ast.Raise) for x in s.body)]
-    other_system = any(any(isinstance(c, ast.Compare) and "self.id" in norm(c) and ".id" in norm(c).replace("self.id", "", 1)
+    from ..astutil import fully_expanded as _fxg
+    other_system = any(any(isinstance(c, ast.Compare) and "self.id" in norm(_fxg(c, ck))
+                           and ".id" in norm(_fxg(c, ck)).replace("self.id", "", 1)
                            for c in ast.walk(s.test)) for s in raising_ifs)
     two_systems = any(any(isinstance(c, ast.Compare) and "len(" in norm(c) and (
         (isinstance(c.ops[0], ast.Gt) and norm(c.comparators[0]) == "1") or
